@@ -289,7 +289,7 @@ pub fn fixed_universe() -> Universe {
             (x >> 32) as u32
         })
         .collect();
-    gen::extend_universe(&mut u, &choices, UniCfg { n_adts: 24, n_builtin_subjects: 30, ..UniCfg::default() });
+    gen::extend_universe(&mut u, &choices, UniCfg { n_adts: 24, n_builtin_subjects: 30, allow_zst_blocks: false, ..UniCfg::default() });
     u
 }
 
@@ -375,6 +375,43 @@ pub fn extra_universe() -> Universe {
     s.push(Ty::adt(audit, vec![a(Ty::vec(p(U64)))]));
     s.push(Ty::adt(audit, vec![a(Ty::bslice(p(U64)))]));
     s.push(Ty::vec(Ty::adt(audit, vec![a(Ty::vec(p(U64)))])));
+    u.subjects = s;
+    u
+}
+
+
+/// Zero-sized zero-copy data in blocks (label "zst"): the O3/O4 class of DESIGN.md section 2.9.
+pub fn zst_universe() -> Universe {
+    use CopyKind::*;
+    use Prim::*;
+    let mut u = Universe { label: "zst".into(), adts: vec![], subjects: vec![], pairs: vec![] };
+    let mut add = |d: AdtDef| -> usize {
+        u.adts.push(d);
+        u.adts.len() - 1
+    };
+    let z0 = add(def("Z0", Zero, &["C"], vec![], Body::Struct(Fields::Unit)));
+    let z0a = add(def("Z0A", Zero, &["C", "align(8)"], vec![], Body::Struct(Fields::Named(vec![]))));
+    let zp = add(def("ZP", Zero, &["C"], vec![], Body::Struct(named(&[("p", Ty::phantom(Ty::String)), ("u", p(Unit)), ("f", Ty::RangeFull), ("e", Ty::arr(p(U64), 0))]))));
+    let g = add(def("G", DeepPlain, &[], vec![tparam("A", &[])], Body::Struct(named(&[("pre", p(U8)), ("a", Ty::Param(0)), ("post", p(U32))]))));
+    let zg = add(def("ZH", Zero, &["C"], vec![], Body::Struct(named(&[("h", p(U16)), ("z", Ty::adt(z0, vec![])), ("t", p(U8))]))));
+    let mut s: Vec<Ty> = vec![];
+    let zsts = [p(Unit), Ty::phantom(p(U8)), Ty::RangeFull, Ty::arr(p(U8), 0), Ty::arr(p(U32), 0), Ty::adt(z0, vec![]), Ty::adt(z0a, vec![]), Ty::adt(zp, vec![]), Ty::arr(Ty::adt(z0, vec![]), 2), Ty::tup(p(Unit), 2), Ty::arr(p(Unit), 3)];
+    for z in &zsts {
+        s.push(z.clone());
+        s.push(Ty::vec(z.clone()));
+        s.push(Ty::bslice(z.clone()));
+        s.push(Ty::arr(z.clone(), 2));
+        s.push(Ty::opt(z.clone()));
+        s.push(Ty::adt(g, vec![a(z.clone())]));
+        s.push(Ty::adt(g, vec![a(Ty::vec(z.clone()))]));
+    }
+    s.push(Ty::tup(Ty::adt(z0, vec![]), 3));
+    s.push(Ty::adt(zg, vec![]));
+    s.push(Ty::vec(Ty::adt(zg, vec![])));
+    s.push(Ty::vec(Ty::arr(p(U32), 0)));
+    s.push(Ty::vec(Ty::vec(Ty::adt(z0, vec![]))));
+    let mut seen = std::collections::BTreeSet::new();
+    s.retain(|t| seen.insert(t.clone()));
     u.subjects = s;
     u
 }
